@@ -27,6 +27,9 @@ import (
 // a list of lengths in several orders — ascending, descending, zig-zag short-long-short — next to
 // the fresh Retrieves. Every call must select what Python selects for THAT length (the selection
 // depends on the bounds and the length only, not on the arrays the parsed slice has met before).
+// Overlapping calls (a quarter of the cases, c11Bundle.overlap in b8_helpers.go): one parsed
+// function called alternately and then by one goroutine per length at the same time on arrays of
+// different lengths; every call must give the selection computed beforehand for its length.
 // Oracles per slice: (1) c11PySlice, a transcription of CPython's PySlice_Unpack +
 // PySlice_AdjustIndices + range; (2) python3 itself, one subprocess per worker fed through
 // stdin/stdout; (3) Lean Spec.run (pySlice); correspondence with Impl.run (error text included).
@@ -679,6 +682,33 @@ func (c11) Exec(seed int64, i int, tier string) Record {
 	for k := range onceSubs {
 		b.once(onceSubs[k], onceLens[k], spell)
 	}
+	// overlapping calls (a quarter of the cases): one of the parsed-once subscript lists that has a slice,
+	// 3..4 different lengths, one goroutine per length
+	overlapCalls := 0
+	if len(onceSubs) > 0 && r.Chance(25) {
+		var cand []int
+		for k, subs := range onceSubs {
+			for _, s := range subs {
+				if s.Kind == SubSlice && (s.T == nil || *s.T != 0) {
+					cand = append(cand, k)
+					break
+				}
+			}
+		}
+		if len(cand) > 0 {
+			k := cand[r.Intn(len(cand))]
+			base := onceLens[k][len(onceLens[k])-1]
+			if base > 12 {
+				base = 12
+			}
+			lens := c11Lens(r.Range(1, 4), r.Range(3, 7), r.Range(5, 9), base+r.Range(0, 2))
+			if len(lens) >= 2 {
+				overlapCalls = b.overlap(onceSubs[k], lens, 300, spell)
+				b.rec.Tags = append(b.rec.Tags, "overlap:one-parse-concurrent-lengths")
+			}
+		}
+	}
+	b.rec.Info["overlap_calls"] = overlapCalls
 	b.rec.Info["parsed_once_functions"] = b.parsedOnce
 	b.rec.Info["parsed_once_calls"] = b.onceCalls
 	b.rec.Info["part"] = part
